@@ -109,7 +109,7 @@ def run_tlc(module, workdir, tag="run", workers=None, timeout=3600, env=None, co
     out_path = os.path.join(workdir, "%s.out" % tag)
     if workers is None:
         workers = NPROC
-    cmd = ["java", "-XX:+UseParallelGC", "-Xmx8g"] + list(jvm_opts) + ["-cp", TLC_JAR_CP, "tlc2.TLC",
+    cmd = ["java", "-XX:+UseParallelGC", "-Xmx8g", "-Xss64m"] + list(jvm_opts) + ["-cp", TLC_JAR_CP, "tlc2.TLC",
            "-workers", str(workers), "-metadir", meta, "-noGenerateSpecTE", "-config", cfg_path]
     if coverage:
         cmd += ["-coverage", "1"]
